@@ -171,6 +171,11 @@ func newLockAudit(c *Ctx, pkg string, guards map[*types.Var]*types.Var, maxVisit
 			transfers[f] = true
 		}
 	}
+	for _, f := range la.fns {
+		if lockScoping(f) {
+			transfers[f] = true
+		}
+	}
 	// such a helper is analysed only inlined into its callers
 	if len(transfers) > 0 {
 		var keep []*ssa.Function
@@ -189,7 +194,21 @@ func newLockAudit(c *Ctx, pkg string, guards map[*types.Var]*types.Var, maxVisit
 			MaxVisits:  maxVisits,
 			Inline: func(fr *Frame, call ssa.CallInstruction, callee *ssa.Function) bool {
 				// closures of this function that are called or deferred here
-				return callee.Parent() == fr.Fn || (callee.Parent() != nil && callee.Parent() == fr.Fn.Parent()) || transfers[callee]
+				if callee.Parent() == fr.Fn || (callee.Parent() != nil && callee.Parent() == fr.Fn.Parent()) || transfers[callee] || lockScoping(callee) {
+					return true
+				}
+				// the callback of a lock-scoping helper: a closure (or bound method) of a function further up the inlined chain
+				if lockScoping(fr.Fn) {
+					if callee.Synthetic != "" && strings.HasSuffix(callee.Name(), "$bound") {
+						return true
+					}
+					for x := fr.Parent; x != nil; x = x.Parent {
+						if callee.Parent() == x.Fn {
+							return true
+						}
+					}
+				}
+				return false
 			},
 		}
 		var mapEv func(ev *Ev) bool
@@ -236,6 +255,56 @@ func newLockAudit(c *Ctx, pkg string, guards map[*types.Var]*types.Var, maxVisit
 
 // onlyInvokedInParent: the function literal is only ever called or deferred
 // directly by the function that creates it (never stored, passed or started with go).
+// lockScoping: an unexported function (or generic instance) of the module that takes a lock and, while
+// holding it, calls a function-typed parameter (readLocked(&t.mu, func() T {...})).  Such a helper and the
+// callback handed to it only make sense analysed inlined into the caller.
+var lockScopingMemo = map[*ssa.Function]bool{}
+
+func lockScoping(g *ssa.Function) bool {
+	if g == nil || len(g.Blocks) == 0 || !strings.HasPrefix(pkgPathOf(g), modPath) {
+		return false
+	}
+	if v, ok := lockScopingMemo[g]; ok {
+		return v
+	}
+	name := g.Name()
+	if g.Parent() != nil || (name != "" && name[0] >= 'A' && name[0] <= 'Z') {
+		lockScopingMemo[g] = false
+		return false
+	}
+	callsParam, locks := false, false
+	instrs(g, func(in ssa.Instruction) {
+		ci, ok := in.(ssa.CallInstruction)
+		if !ok {
+			return
+		}
+		if p, isP := ci.Common().Value.(*ssa.Parameter); isP && !ci.Common().IsInvoke() {
+			if _, isSig := p.Type().Underlying().(*types.Signature); isSig {
+				callsParam = true
+			}
+		}
+		switch calleeName(ci.Common()) {
+		case "(*sync.Mutex).Lock", "(*sync.RWMutex).Lock", "(*sync.RWMutex).RLock":
+			// the lock itself is handed in by the caller (a pure scoping helper, not a method that guards its own state)
+			if len(ci.Common().Args) == 1 {
+				if _, isP := ci.Common().Args[0].(*ssa.Parameter); isP {
+					locks = true
+				}
+			}
+		}
+		if staticCallee(ci.Common()) == g {
+			callsParam = false
+			locks = false
+			lockScopingMemo[g] = false
+		}
+	})
+	if v, ok := lockScopingMemo[g]; ok && !v {
+		return false
+	}
+	lockScopingMemo[g] = callsParam && locks
+	return callsParam && locks
+}
+
 func onlyInvokedInParent(f *ssa.Function) bool {
 	found := false
 	ok := true
@@ -249,7 +318,7 @@ func onlyInvokedInParent(f *ssa.Function) bool {
 		for _, r := range *mc.Referrers() {
 			switch x := r.(type) {
 			case *ssa.Call:
-				if x.Call.Value != ssa.Value(mc) {
+				if x.Call.Value != ssa.Value(mc) && !lockScoping(staticCallee(&x.Call)) {
 					ok = false
 				}
 			case *ssa.Defer:
